@@ -174,6 +174,9 @@ func runCheck(o checkOpts) *checkResult {
 		say("%s", line)
 	}
 	replayDir := filepath.Join(o.verif, "replay", o.prop)
+	if o.only == "" {
+		os.RemoveAll(replayDir)
+	}
 	os.MkdirAll(replayDir, 0o755)
 	writeReplay := func(name string, payload map[string]interface{}) string {
 		p := filepath.Join(replayDir, sanitize(name)+".json")
@@ -279,13 +282,14 @@ func runCheck(o checkOpts) *checkResult {
 	extra := propertyObligations(w, o, mine)
 	obls = append(obls, extra...)
 
+	genSecs := time.Since(t0).Seconds() - w.loadSecs
 	ts := time.Now()
 	solveAll(obls, o.timeout, 12)
 	solveSecs := time.Since(ts).Seconds()
 	// retry undecided once with the thorough timeout before reporting
 	var undec []*Obligation
 	for _, ob := range obls {
-		if ob.Verdict == "undecided" && !ob.WantSat {
+		if ob.Verdict == "undecided" && !ob.WantSat && !ob.Helper {
 			undec = append(undec, ob)
 		}
 	}
@@ -300,7 +304,13 @@ func runCheck(o checkOpts) *checkResult {
 	var recs []oblRecord
 	var samples []interface{}
 	knownHit := map[string]bool{}
+	nHelper := 0
 	for _, ob := range obls {
+		if ob.Helper {
+			nHelper++
+			recs = append(recs, oblRecord{Name: ob.Name, Kind: "helper-lemma", Func: ob.Func, Verdict: ob.Verdict, Solver: ob.Solver, Secs: ob.Secs, Bytes: ob.Bytes, Note: ob.Note})
+			continue
+		}
 		rec := oblRecord{Name: ob.Name, Kind: ob.Kind, Func: ob.Func, Verdict: ob.Verdict, Solver: ob.Solver, Secs: ob.Secs, Bytes: ob.Bytes, Note: ob.Note}
 		if ob.WantSat {
 			nCover++
@@ -341,6 +351,18 @@ func runCheck(o checkOpts) *checkResult {
 		payload := map[string]interface{}{"obligation": ob.Name, "kind": ob.Kind, "function": ob.Func, "position": ob.Pos.String(),
 			"note": ob.Note, "verdict": ob.Verdict, "solver": ob.Solver, "solver_output": ob.Output}
 		suffix := "no-failing-input-found"
+		if ob.Verdict == "failed" && ob.Model != "" && len(ob.Inputs) > 0 {
+			mv := parseModel(ob.Model)
+			lab := map[string]string{}
+			for k, t := range ob.Inputs {
+				if v, ok := mv[t.S]; ok {
+					lab[k] = v
+				} else if t.IsConst() {
+					lab[k] = t.S
+				}
+			}
+			payload["model"] = lab
+		}
 		if ob.Verdict == "failed" && ob.Model != "" {
 			rp := tryReplay(w, o, ob)
 			payload["replay"] = rp
@@ -365,8 +387,8 @@ func runCheck(o checkOpts) *checkResult {
 	if !o.noEvidence && o.only == "" {
 		writeEvidence(w, o, seed, recs, samples, nProof, nDis+len(knownHit), nCover, len(res.violations), len(knownHit), time.Since(t0).Seconds(), solveSecs, mine, results)
 	}
-	say("property %s: %d obligations, %d discharged, %d known findings, %d cover checks, %d violations, %.1fs (load %.1fs, solve %.1fs)",
-		o.prop, nProof, nDis, len(knownHit), nCover, len(res.violations), time.Since(t0).Seconds(), w.loadSecs, solveSecs)
+	say("property %s: %d obligations, %d discharged, %d known findings, %d cover checks, %d violations, %.1fs (load %.1fs, gen %.1fs, solve %.1fs)",
+		o.prop, nProof, nDis, len(knownHit), nCover, len(res.violations), time.Since(t0).Seconds(), w.loadSecs, genSecs, solveSecs)
 	return res
 }
 
